@@ -133,7 +133,7 @@ def _sedov_res(c):
     return hydro_more.sedov_resolve(c)
 
 
-reg("Sedov", hydro="Sedov", fields=GAS_FIELDS | {"sound_speed"}, cls="C", tol=1e-9,
+reg("Sedov", hydro="Sedov", fields=GAS_FIELDS | {"sound_speed"}, cls="C", tol=1e-9, floor=1e-1,
     resolve=_sedov_res,
     pdims=lambda c: {"rho0": dim((RHO, 1), (LEN, _sedov_res(c)["omega"])),
                      "eblast": dim((MASS, 1), (LEN, c["geometry"] - 1.0), (TIME, -2))},
@@ -179,7 +179,7 @@ def _riem_rel(c):
 
 for _nm, _extra, _tol, _cls in (("IGEOS", {}, 1e-10, "B"), ("GenEOS", {"num_int_pts": 501, "num_x_pts": 2001}, 1e-8, "C")):
     for _suffix in ("", "_table"):
-        reg(_nm + _suffix, hydro=_nm + _suffix, fields=GAS_FIELDS, cls=_cls, tol=_tol, resolve=_riem_res(_extra),
+        reg(_nm + _suffix, hydro=_nm + _suffix, fields=GAS_FIELDS, cls=_cls, tol=_tol, resolve=_riem_res(_extra), floor=1e-3 if _nm == "IGEOS" else 1e-1,
             pdims=_riem_pdims, relations=_riem_rel, abs_xtol=True)
 
 # ---- Coggeshall solutions without hard-wired radiation constants -------------------------------------------------
@@ -329,10 +329,14 @@ _cog(19, lambda c: {"rho0": RHO, "u0": VEL, "Gamma": GASCONST},
                 ("doc:T = u0^2 (gamma-1)/(2 Gamma)", [{"@temperature": 1}, {"u0": 2, "Gamma": -1}])])
 _cog(20, lambda c: {"rho0": RHO, "u0": VEL, "a": dim((TIME, -1)), "Gamma": GASCONST},
      lambda c: [("doc:1 - a t", [{}, {"a": 1, "t": 1}]),
-                ("doc:R = u0 (gamma-1)/(4a) ...", [{"x": 1}, {"u0": 1, "a": -1}]),
+                # the documented shock position u0 (gamma-1)/(4a) * t (1-2at)/(1-at) is length*time -- it is NOT a relation the table can be
+                # asked to satisfy (see findings_proposed/C08.md); the length u0/a that it is presumably meant to be is checked instead
+                ("doc:length scale u0/a", [{"x": 1}, {"u0": 1, "a": -1}]),
                 ("doc:rho ~ rho0", [{"@density": 1}, {"rho0": 1}]),
                 ("doc:u = (u0 - a r)/(1 - a t)", [{"@velocity": 1}, {"u0": 1}, {"a": 1, "x": 1}]),
-                ("doc:T = u0^2 (gamma-1)/(2 Gamma)(1-at)^-2", [{"@temperature": 1}, {"u0": 2, "Gamma": -1}])])
+                ("doc:T = u0^2 (gamma-1)/(2 Gamma)(1-at)^-2", [{"@temperature": 1}, {"u0": 2, "Gamma": -1}])],
+     # which side of the shock a point is on, read from the returned fields (post-shock region 1 has T > 0)
+     side=lambda sol: np.asarray(sol["temperature"], float) > 0)
 _cog(21, lambda c: {"rho0": dim((RHO, 1), (LEN, 3)), "temp0": dim((TEMP, 1), (LEN, -3)), "Gamma": GASCONST},
      lambda c: [("doc:R = 2/(Gamma T0 t^2)", [{"x": 1}, {"Gamma": -1, "temp0": -1, "t": -2}]),
                 ("doc:rho = rho0 r^-3", [{"@density": 1}, {"rho0": 1, "x": -3}]),
